@@ -155,3 +155,76 @@ int main(void){
     s += "def hpackHuffTree : HuffTree :=\n  " + tree + "\n"
     s += "\nend LtVerif.Extracted\n"
     return s
+
+
+@extractor("H2HeaderMaps")
+def h2_header_maps():
+    """h2.c: http_header_lc[], http_header_lshpack_idx[], lshpack_idx_http_header[];
+    http_header.c: http_headers[] (+ http_headers_off[]); http_header.h ids"""
+    out = c_dump(r'''
+#include "first.h"
+#include "http_header.c"
+#include "h2.c"
+#include <stdio.h>
+static void pstr(const char *s, unsigned n) { printf(" %u", n); for (unsigned i = 0; i < n; ++i) printf(" %u", (unsigned char)s[i]); }
+int main(void){
+  unsigned nlc = sizeof(http_header_lc)/sizeof(http_header_lc[0]);
+  unsigned nli = sizeof(http_header_lshpack_idx)/sizeof(http_header_lshpack_idx[0]);
+  unsigned nil = sizeof(lshpack_idx_http_header)/sizeof(lshpack_idx_http_header[0]);
+  unsigned nhh = sizeof(http_headers)/sizeof(http_headers[0]);
+  unsigned noff = sizeof(http_headers_off)/sizeof(http_headers_off[0]);
+  printf("C %u %u %u %u %u %d %d %d %d %d %d %d %d %d %d\n", nlc, nli, nil, nhh, noff,
+         HTTP_HEADER_OTHER, HTTP_HEADER_DATE, HTTP_HEADER_SERVER, HTTP_HEADER_CONTENT_ENCODING,
+         HTTP_HEADER_H2_UNKNOWN, HTTP_HEADER_H2_AUTHORITY, HTTP_HEADER_H2_METHOD, HTTP_HEADER_H2_PATH,
+         HTTP_HEADER_H2_SCHEME, HTTP_HEADER_H2_PROTOCOL);
+  for (unsigned i = 0; i < nlc; ++i) { printf("L"); pstr(http_header_lc[i], (unsigned)strnlen(http_header_lc[i], 32)); printf("\n"); }
+  printf("I"); for (unsigned i = 0; i < nli; ++i) printf(" %u", http_header_lshpack_idx[i]); printf("\n");
+  printf("J"); for (unsigned i = 0; i < nil; ++i) printf(" %d", lshpack_idx_http_header[i]); printf("\n");
+  for (unsigned i = 0; i < nhh; ++i) { printf("H %d", http_headers[i].key); pstr(http_headers[i].value, http_headers[i].vlen); printf("\n"); }
+  printf("O"); for (unsigned i = 0; i < noff; ++i) printf(" %d", http_headers_off[i]); printf("\n");
+  return 0; }
+''')
+    consts, lc, li, il, hh, off = None, [], None, None, [], None
+    for ln in out.strip().split("\n"):
+        t = ln.split()
+        if t[0] == "C":
+            consts = [int(x) for x in t[1:]]
+        elif t[0] == "L":
+            n = int(t[1]); b = [int(x) for x in t[2:]]
+            if len(b) != n:
+                raise ExtractError("http_header_lc row shape")
+            lc.append(b)
+        elif t[0] == "I":
+            li = [int(x) for x in t[1:]]
+        elif t[0] == "J":
+            il = [int(x) for x in t[1:]]
+        elif t[0] == "H":
+            n = int(t[2]); b = [int(x) for x in t[3:]]
+            if len(b) != n:
+                raise ExtractError("http_headers row shape")
+            hh.append((int(t[1]), b))
+        elif t[0] == "O":
+            off = [int(x) for x in t[1:]]
+    if consts is None or li is None or il is None or off is None or len(lc) != consts[0] \
+            or len(li) != consts[1] or len(il) != consts[2] or len(hh) != consts[3]:
+        raise ExtractError("h2 header maps: unexpected shape")
+    names = ["hdrOther", "hdrDate", "hdrServer", "hdrContentEncoding"]
+    pn = ["h2Unknown", "h2Authority", "h2Method", "h2Path", "h2Scheme", "h2Protocol"]
+    s = "namespace LtVerif.Extracted\n\n/-- http_header.h: enum http_header_e / http_header_h2_e -/\n"
+    for n, v in zip(names, consts[5:9]):
+        s += "def %s : Nat := %d\n" % (n, v)
+    for n, v in zip(pn, consts[9:15]):
+        s += "def %s : Int := %d\n" % (n, v)
+    s += "\n/-- h2.c: http_header_lc[id] (lower-cased field-names) -/\n"
+    s += "def httpHeaderLc : List (List UInt8) := [\n" + ",\n".join("  " + _bytes_lit(b) for b in lc) + "]\n\n"
+    s += "/-- h2.c: http_header_lshpack_idx[id] -/\ndef httpHeaderLshpackIdx : List Nat := " + \
+         "[" + ", ".join(str(x) for x in li) + "]\n\n"
+    s += "/-- h2.c: lshpack_idx_http_header[hpack index] -/\ndef lshpackIdxHttpHeader : List Int := " + \
+         "[" + ", ".join(str(x) for x in il) + "]\n\n"
+    s += "/-- http_header.c: http_headers[] (id, name), sorted by length -/\n"
+    s += "def httpHeaders : List (Int × List UInt8) := [\n" + \
+         ",\n".join("  (%d, %s)" % (k, _bytes_lit(b)) for k, b in hh) + "]\n\n"
+    s += "/-- http_header.c: http_headers_off[len] -/\ndef httpHeadersOff : List Int := " + \
+         "[" + ", ".join(str(x) for x in off) + "]\n"
+    s += "\nend LtVerif.Extracted\n"
+    return s
